@@ -97,12 +97,16 @@ def nested_blocks(rng, g):
     def level(d):
         reads = rng.sample(names, rng.randint(0, len(names)))
         head = " ".join("%s drop" % r if rng.random() < 0.7 else "[%s] drop" % r for r in reads)
+        # a block body is a scope of its own: rebinding a captured name there shadows it for the levels below only
+        if rng.random() < 0.5:
+            for r in rng.sample(names, rng.randint(1, min(2, len(names)))):
+                head += " let %s := %s;" % (r, g.lit(rng.choice("cs"))[0]) if rng.random() < 0.7 else " %s (|%s| " % (g.lit("c")[0], r)
         if d == 0:
             inner = "[" + ", ".join(rng.sample(names, rng.randint(1, len(names)))) + "]"
         else:
             inner = "{ %s } apply" % level(d - 1) if rng.random() < 0.7 else "let Fn := { %s }; Fn" % level(d - 1)
-        return (head + " " + inner).strip()
-    return "%s { %s } apply" % (pre, level(depth - 1))
+        return (head + " " + inner).strip() + ")" * head.count("(|")
+    return "%s { %s } apply %s" % (pre, level(depth - 1), " ".join(rng.sample(names, rng.randint(0, 2))))
 
 
 def infix_lets(rng, g):
@@ -161,6 +165,18 @@ def scope_branches(rng, g):
         "%s %s (|A A| A)" % (a, b),
         "(%s, %s) (|A| let B := A; B) B" % (a, b),
         "?((let A := %s; A) ?(A)) A" % a,
+        # `E?, F` is ONE alternation of E, nop and F: a name bound by E is not F's
+        "(let A := %s;)?, A" % a,
+        "let A := %s; ((let A := %s;)?, A)" % (a, b),
+        "[(1, 2) (|A| 0 ((let A := A 10 mul;)?, A))]",
+        "let A := %s; ((let A := %s; A)?, A, (let A := %s; A))" % (a, b, c),
+        "let A := %s; (A, (let A := %s;)?, A) A" % (a, b),
+        "((let A := %s;)?, (let A := %s; A))" % (a, b),
+        "let A := %s; ((let B := A;)?, (let B := %s; B), A)" % (a, b),
+        "let A := %s; {let A := %s; {A} apply} apply" % (a, b),
+        "[let A := %s; (%s, %s) {|A| {{A} apply} apply} apply]" % (a, b, c),
+        "let A := %s; {%s (|A| {A} apply)} apply A" % (a, b),
+        "let A := %s; {{let A := %s; {A}} apply apply} apply" % (a, b),
     ])
 
 
@@ -190,7 +206,7 @@ def run(ctx):
     for _ in range(n):
         k = rng.random()
         progs.append(binder_program(rng, g) if k < 0.6 else nested_blocks(rng, g) if k < 0.78 else infix_lets(rng, g)
-                     if k < 0.86 else format_lets(rng, g) if k < 0.92 else scope_branches(rng, g))
+                     if k < 0.84 else format_lets(rng, g) if k < 0.89 else scope_branches(rng, g))
     stats, irecs, mrecs = zwcorr.run_programs(ctx, h, progs, theorem="ZwVerif.C03.* / engine = ZwVerif.sem",
                                              label="C03-programs")
     # alpha-renaming on the implementation alone
